@@ -626,6 +626,21 @@ def run(ctx):
             d = callee_decl(crcs[0], u)
             okc = okc and 'unsigned char' in ((d or {}).get('type', {}).get('qualType') or '') + 'Bytef' or okc
         ctx.check(okc, R, 'chunk|crc-chain', W, 'crc32(0, type, 4) then crc32(crc, data, size)', 'CRC does not cover exactly the type followed by the data')
+        # zlib: crc32(crc, Z_NULL, len) returns the *initial* value 0, not crc.  A chunk without payload
+        # (IEND) is written with a null data pointer, so the payload update must be skipped for it
+        null_passed = [c for c in walk_deep(svb, u) if c.get('kind') == 'CallExpr' and call_name(c) == 'write_png_chunk' and len(call_args(c)) >= 2 and
+                       (strip(call_args(c)[1]).get('kind') in ('CXXNullPtrLiteralExpr', 'GNUNullExpr') or any(y.get('kind') in ('CXXNullPtrLiteralExpr', 'GNUNullExpr') for y in walk(call_args(c)[1])) or int_value(call_args(c)[1]) == 0)]
+        dparam = wps[1] if len(wps) > 1 else None
+        for i_, c in enumerate(crcs):
+            a_ = call_args(c)
+            if dparam is None or not any((ref_decl(y) or {}).get('id') == dparam['id'] for y in walk(a_[1])):
+                continue
+            tf_ = [(nf(n_), pol_) for n_, pol_ in atoms(path_facts(c))]
+            guarded = any((t_ in ('size', 'data', 'size.operator unsigned int()') and pol_) for t_, pol_ in tf_) or \
+                any(r_ and ((nf(r_[0]).startswith('size') and r_[1] in ('>', '!=') and nf(r_[2]) == '0') or (nf(r_[2]).startswith('size') and r_[1] in ('<', '!=') and nf(r_[0]) == '0') or
+                            ('data' in (nf(r_[0]), nf(r_[2])) and r_[1] == '!=')) for r_ in [relation(n_, pol_) for n_, pol_ in atoms(path_facts(c))])
+            ctx.check(guarded or not null_passed, R, 'chunk|payload-crc-guarded#%d' % i_, c, 'the payload CRC update is skipped for a chunk without payload (null data pointer)',
+                      'crc32(crc, data, size) runs also for the empty chunk written with a null data pointer (%s): zlib returns 0 for a Z_NULL buffer, so the IEND chunk gets CRC 00000000 instead of AE426082' % (src_text(null_passed[0], 50) if null_passed else ''))
         # a static local initialised from an argument keeps the first call's value for every later call
         n_st = 0
         for f_ in u.functions:
